@@ -263,6 +263,48 @@ def i_SRAIW(ins, fmap):
 
 
 @__npc
+def i_ADDW(ins, fmap):
+    dst, src1, src2 = ins.operands
+    if dst is not zero:
+        fmap[dst] = fmap((src1[0:32] + src2[0:32]).signextend(64))
+
+
+@__npc
+def i_ADDIW(ins, fmap):
+    dst, src1, src2 = ins.operands
+    if dst is not zero:
+        fmap[dst] = fmap((src1[0:32] + src2).signextend(64))
+
+
+@__npc
+def i_SUBW(ins, fmap):
+    dst, src1, src2 = ins.operands
+    if dst is not zero:
+        fmap[dst] = fmap((src1[0:32] - src2[0:32]).signextend(64))
+
+
+@__npc
+def i_SLLW(ins, fmap):
+    dst, src1, src2 = ins.operands
+    if dst is not zero:
+        fmap[dst] = fmap((src1[0:32] << (src2 & 0x1F)).signextend(64))
+
+
+@__npc
+def i_SRLW(ins, fmap):
+    dst, src1, src2 = ins.operands
+    if dst is not zero:
+        fmap[dst] = fmap((src1[0:32] >> (src2 & 0x1F)).signextend(64))
+
+
+@__npc
+def i_SRAW(ins, fmap):
+    dst, src1, src2 = ins.operands
+    if dst is not zero:
+        fmap[dst] = fmap(oper(OP_ASR, src1[0:32], src2 & 0x1F).signextend(64))
+
+
+@__npc
 def i_LUI(ins, fmap):
     dst, src1 = ins.operands
     if dst is not zero:
